@@ -73,33 +73,34 @@ func createSplitClientDistributions(group dataplane.BackendGroup) []http.SplitCl
 		}
 	}
 
+	// Shares are computed in hundredths of a percent with integer arithmetic: every backend gets
+	// floor(10000*weight/total) and the rounding remainder goes to the last backend with a non-zero weight, so
+	// that the shares are never negative, sum to exactly 100 and a zero-weight backend gets no traffic.
+	const hundredPercent = int64(10000)
+
+	cents := make([]int64, len(backends))
+	remaining := hundredPercent
+	lastNonZero := 0
+
+	for i, b := range backends {
+		cents[i] = int64(b.Weight) * hundredPercent / int64(totalWeight)
+		remaining -= cents[i]
+
+		if b.Weight != 0 {
+			lastNonZero = i
+		}
+	}
+
+	cents[lastNonZero] += remaining
+
 	distributions := make([]http.SplitClientDistribution, 0, len(backends))
 
-	// The percentage of all backends cannot exceed 100.
-	availablePercentage := float64(100)
-
-	// Iterate over all backends except the last one.
-	// The last backend will get the remaining percentage.
-	for i := range len(backends) - 1 {
-		b := backends[i]
-
-		percentage := percentOf(b.Weight, totalWeight)
-		availablePercentage -= percentage
-
+	for i, b := range backends {
 		distributions = append(distributions, http.SplitClientDistribution{
-			Percent: fmt.Sprintf("%.2f", percentage),
+			Percent: fmt.Sprintf("%d.%02d", cents[i]/100, cents[i]%100),
 			Value:   getSplitClientValue(b),
 		})
 	}
-
-	// The last backend gets the remaining percentage.
-	// This is done to guarantee that the sum of all percentages is 100.
-	lastBackend := backends[len(backends)-1]
-
-	distributions = append(distributions, http.SplitClientDistribution{
-		Percent: fmt.Sprintf("%.2f", availablePercentage),
-		Value:   getSplitClientValue(lastBackend),
-	})
 
 	return distributions
 }
